@@ -379,6 +379,13 @@ func genVP9PayCase(t *rapid.T) *VP9PayCase {
 			c.Frames[i].BodyLen %= 600
 		}
 	}
+	if rapid.IntRange(0, 59).Draw(t, "jumbo") == 0 {
+		// a frame of 64 KiB or more (ordinary for HD key frames)
+		if c.MTU < 1000 {
+			c.MTU = uint16(rapid.SampledFrom([]int{1200, 1500, 9000, 65535}).Draw(t, "jumbomtu"))
+		}
+		c.Frames[rapid.IntRange(0, len(c.Frames)-1).Draw(t, "jumboframe")].BodyLen = rapid.SampledFrom([]int{65520, 65525, 65530, 65533, 65534, 65535, 65536, 65540, 66536, 131072, 200000}).Draw(t, "jumbobody")
+	}
 
 	return c
 }
@@ -448,7 +455,7 @@ func genVP9DescCase(t *rapid.T) *VP9DescCase {
 	return c
 }
 
-const ruleC12 = "payloader: 1-4 frames whose uncompressed header prefix is written bit by bit by an independent writer (profiles 0-3 with reserved bit, show_existing_frame, key/non-key, all colour spaces incl. RGB, subsampling bits, size-1 in [0,65534]^2, garbage in reserved and trailing bits) followed by 0-5000 random bytes, flexible and non-flexible mode, MTU >= 4 (>= 12 when a non-flexible key frame occurs) biased to the thresholds, initial picture id biased to 0,127,128,32766,32767,65535; every packet is decoded by VP9Packet and by an independent RFC 9628 descriptor parser: concatenation = frame, B/E placement, IsPartitionHead=B, F=mode, 15-bit id constant per frame and +1 per frame mod 2^15, <= MTU, non-flexible P=non-key and V/Y/width/height on the first packet of a key frame. descriptor: reference-built descriptors (I 7/15 bit, L, F with I, 1-3 P_DIFF, SS with N_S 0-7, Y, G, N_G 0-255 with R 0-3; SID 0-4 since pion supports 5 spatial layers by design) + payload, all truncations rejected. header: vp9.Header.Unmarshal equals the writer's fields and rejects every short byte prefix. Non-trivial = >=2 packets, non-flexible key frame with profile>=1 or RGB, SS with picture groups, >=2 P_DIFF, truncation, key-frame header; distinct = FNV-64 of the JSON case"
+const ruleC12 = "payloader: 1-4 frames whose uncompressed header prefix is written bit by bit by an independent writer (profiles 0-3 with reserved bit, show_existing_frame, key/non-key, all colour spaces incl. RGB, subsampling bits, size-1 in [0,65534]^2, garbage in reserved and trailing bits) followed by 0-5000 random bytes (one case in 60: a frame of 65520-200000 bytes), flexible and non-flexible mode, MTU >= 4 (>= 12 when a non-flexible key frame occurs) biased to the thresholds, initial picture id biased to 0,127,128,32766,32767,65535; every packet is decoded by VP9Packet and by an independent RFC 9628 descriptor parser: concatenation = frame, B/E placement, IsPartitionHead=B, F=mode, 15-bit id constant per frame and +1 per frame mod 2^15, <= MTU, non-flexible P=non-key and V/Y/width/height on the first packet of a key frame. descriptor: reference-built descriptors (I 7/15 bit, L, F with I, 1-3 P_DIFF, SS with N_S 0-7, Y, G, N_G 0-255 with R 0-3; SID 0-4 since pion supports 5 spatial layers by design) + payload, all truncations rejected. header: vp9.Header.Unmarshal equals the writer's fields and rejects every short byte prefix. Non-trivial = >=2 packets, non-flexible key frame with profile>=1 or RGB, SS with picture groups, >=2 P_DIFF, truncation, key-frame header; distinct = FNV-64 of the JSON case"
 
 func TestC12(t *testing.T) {
 	r := begin(t, "C12", "exploration", ruleC12)
